@@ -93,6 +93,13 @@ def _class_code(ex, st, obj):
     return VInt(app("class_code", INT, ex.type_of(st, ex.unwrap(obj).t)))
 
 
+@R.specfn("class_attr:code")
+def _class_attr_code(ex, st, obj):
+    """<message>.code: the class attribute `code` of the object's class"""
+    ex.decls.fun("class_code", [INT], INT)
+    return VInt(app("class_code", INT, ex.type_of(st, obj.t)))
+
+
 @R.specfn("is_generic_msg")
 def _is_generic(ex, st, obj):
     ty = ex.type_of(st, ex.unwrap(obj).t)
